@@ -284,6 +284,24 @@ class _Memo1(object):
         return self.cache[key]
 
 
+def _f1_mutates(x):
+    if np.ndim(x) == 0:
+        return float(x) * float(x) + 1.0
+    x *= x                       # works on the array it was handed (it is the integrand's to use)
+    x += 1.0
+    return x
+
+
+def _f2_mutates(x, y):
+    if np.ndim(x) == 0:
+        return float(x) * float(y) + 2.0
+    x *= y
+    x += 2.0
+    return x
+
+
+F2.update({"style:mutates-its-arguments": _f2_mutates})
+FUNCS.update({"style:mutates-its-argument": _f1_mutates})
 F2.update({"style:memoised": _Memo2()})
 FUNCS.update({"style:memoised": _Memo1().__call__})     # (QGauss.integrate takes functions and bound methods; other callables are data to it)
 F2.update({"style:stack": _f2_stack, "style:prealloc": _f2_prealloc, "style:pointwise": _f2_pointwise, "style:masked": _f2_masked})
